@@ -422,3 +422,119 @@ Example C07_run_full_nonvacuous :
   | Err => False end.
 Proof. split; [exact RunProofs4.ex_query_trimmed|]. vm_compute. split; reflexivity. Qed.
 Print Assumptions C07_run_full_total.
+
+(* ==================================================================================================================================
+   APPENDED: THE WHOLE PROGRAM, FROM THE INPUT FILES TO THE OUTPUT FILES (model/Program.v, proofs/ProgramProofs1-2.v)
+
+   Program.program_files cl ref_rows qry_rows = reader (with -rId / -qId) -> trim of the queries -> Seeding.program_run_full -> writer: the data
+   lines of every XMAP file of the chosen output mode, or Err when the program ends with an exception.  The hypotheses are about what the user
+   controls and nothing else:
+     cmdline_ok cl   := unmatchedPenalty (-su) <= 0 < minScore (-ms)
+     cmap_ok ids rows := every molecule selected by ids that has a label row has an end-marker row (sel, labels_of, markers_of: C17), and no
+                         two label rows of one selected molecule carry the same position
+   (rows = (CMapId, LabelChannel, Position in tenths of a bp) in file order; ids = the -rId / -qId list, [] = no selection).
+   seeds_ok is discharged by C16_seeds_model_ok; "references ascending, queries trimmed, ids distinct" by the reader theorems of C17
+   (ProgramProofs1.read_maps_ok: C17_read_exact + the no-duplicate-position hypothesis give strictly ascending positions).
+
+   C07_program_reader_rejects: the reader's exact exception case (C17_read_err for the two files), and it ends the program.
+   C07_program_total: otherwise both files are read, the run (both passes, all post-processing) returns its outputs o, the additional files _1 / _2
+   are printed (cigarString succeeds on every row), and so is the main file — hence program_files returns Ok — in mode `separate` without further
+   hypothesis, in the other modes under the hypothesis the run-level theorems C07_run_files_readable / C18_run_files_readable carry as well: every JOINED row
+   of the main file is a valid matching (open findings F7/F10: cigarString on a joined row that is not a valid matching is not known to return).
+   PARTIAL in exactly this sense; C07_program_total_separate is the full statement for mode `separate`.
+   (An exception inside the seeding stage is "no seed" in Seeding.seeds_model, see the note above C07_run_full_total.) *)
+Require Import Wiring Program CmapProofs ProgramProofs1 ProgramProofs2.
+Require ProgramExamples.
+
+Theorem C07_program_reader_rejects cl rr qr :
+  (program_read cl rr qr = Err <->
+    (exists i, sel (cl_rids cl) i /\ labels_of rr i <> [] /\ markers_of rr i = []) \/
+    (exists i, sel (cl_qids cl) i /\ labels_of qr i <> [] /\ markers_of qr i = [])) /\
+  (program_read cl rr qr = Err -> program_files cl rr qr = Err).
+Proof. exact (conj (program_read_err cl rr qr) (program_read_err_files cl rr qr)). Qed.
+
+Theorem C07_program_total_partial cl rr qr : cmdline_ok cl -> cmap_ok (cl_rids cl) rr -> cmap_ok (cl_qids cl) qr ->
+  exists refs q0s o,
+    cmap_read rr (cl_rids cl) = Ok refs /\ cmap_read qr (cl_qids cl) = Ok q0s /\ program_outputs cl rr qr = Ok o /\
+    (exists l1 l2, file_data_lines (opt_rows (o_1 o)) = Ok l1 /\ file_data_lines (opt_rows (o_2 o)) = Ok l2) /\
+    (cl_mode cl = Separate \/ (forall w, In w (o_main o) -> joined_row refs q0s w -> row_matching refs q0s w) ->
+     exists files, program_files cl rr qr = Ok files).
+Proof. exact (program_total cl rr qr). Qed.
+
+Theorem C07_program_total_separate cl rr qr : cmdline_ok cl -> cmap_ok (cl_rids cl) rr -> cmap_ok (cl_qids cl) qr ->
+  cl_mode cl = Separate -> exists files, program_files cl rr qr = Ok files.
+Proof. exact (program_total_separate cl rr qr). Qed.
+
+(* non-vacuity (proofs/ProgramExamples.v): reference file = molecule 1 (24 labels, rows in descending order, end marker first) and molecule 4
+   (end marker only); query file = molecule 7 (reference labels 3..12, then labels 13..20 moved 30 kb to the left; rows not in order of position),
+   molecule 9 (end marker only), molecule 3 (reference labels 14..22 mirrored, rows reversed); default command line.  The hypotheses hold and
+   every mode returns its files: the data lines in full *)
+Example C07_program_nonvacuous :
+  (forall m, cmdline_ok (ProgramExamples.px_cl m)) /\ cmap_ok [] ProgramExamples.px_rr /\ cmap_ok [] ProgramExamples.px_qr /\
+  (* the records, in full *)
+  ProgramExamples.px_line3 "1" =
+    "1	3	1	83000.0	0.0	145000.0	228000.0	-	8568.00	9M	83001.0	3000000.0	False	1	(14,9)(15,8)(16,7)(17,6)(18,5)(19,4)(20,3)(21,2)(22,1)"%string /\
+  ProgramExamples.px_line7_first "2" =
+    "2	7	1	0.0	93000.0	29000.0	122000.0	+	9020.00	8M1I1M1I1M	145501.0	3000000.0	False	1	(3,1)(4,2)(5,3)(6,4)(7,5)(8,6)(9,7)(10,8)(11,10)(12,12)"%string /\
+  ProgramExamples.px_line7_second "1" =
+    "1	7	1	86000.0	145500.0	145000.0	204500.0	+	6414.00	1M1I6M	145501.0	3000000.0	True	1	(14,11)(15,13)(16,14)(17,15)(18,16)(19,17)(20,18)"%string /\
+  ProgramExamples.px_line7_joined "1" =
+    "1	7	1	0.0	145500.0	29000.0	204500.0	+	14732.00	8M1I1M2D1M1I6M	145501.0	3000000.0	False	1	(3,1)(4,2)(5,3)(6,4)(7,5)(8,6)(9,7)(10,8)(11,10)(14,11)(15,13)(16,14)(17,15)(18,16)(19,17)(20,18)"%string /\
+  (* the files of the four modes (evaluated by vm_compute in proofs/ProgramExamples.v) *)
+  program_files (ProgramExamples.px_cl Separate) ProgramExamples.px_rr ProgramExamples.px_qr =
+    Ok [(""%string, [ProgramExamples.px_line3 "1"; ProgramExamples.px_line7_first "2"]); ("_1"%string, [ProgramExamples.px_line7_second "1"])] /\
+  program_files (ProgramExamples.px_cl All_) ProgramExamples.px_rr ProgramExamples.px_qr =
+    Ok [(""%string, [ProgramExamples.px_line7_joined "1"]); ("_1"%string, [ProgramExamples.px_line3 "1"; ProgramExamples.px_line7_first "2"]);
+        ("_2"%string, [ProgramExamples.px_line7_second "1"])] /\
+  program_files (ProgramExamples.px_cl Joined) ProgramExamples.px_rr ProgramExamples.px_qr =
+    Ok [(""%string, [ProgramExamples.px_line7_joined "1"]); ("_1"%string, [ProgramExamples.px_line3 "1"])] /\
+  program_files (ProgramExamples.px_cl Best) ProgramExamples.px_rr ProgramExamples.px_qr =
+    Ok [(""%string, [ProgramExamples.px_line3 "1"; ProgramExamples.px_line7_joined "2"])].
+Proof. split; [exact ProgramExamples.px_cl_ok|]. split; [exact (proj1 ProgramExamples.px_files_ok)|]. split; [exact (proj2 ProgramExamples.px_files_ok)|].
+  do 4 (split; [reflexivity|]). exact ProgramExamples.px_files. Qed.
+(* a labelled molecule without end marker: the reader raises and the program ends; selecting the other molecule with -qId hides it *)
+Example C07_program_missing_marker :
+  let qr := (ProgramExamples.px_qr ++ [(12, 1, 5000)])%list in
+  program_files (ProgramExamples.px_cl Best) ProgramExamples.px_rr qr = Err /\
+  program_files (ProgramExamples.px_with_qids Best [3]) ProgramExamples.px_rr qr = Ok [(""%string, [ProgramExamples.px_line3 "1"])].
+Proof. exact ProgramExamples.px_missing_marker. Qed.
+(* ---- the seeding stage does not raise (closes the note above C07_run_full_total for well-formed inputs) ----
+   Seeding.seeds_res is the seeding stage WITH its exceptions (resolution < 1, blur radius < 0, find_peaks distance < 1, `positions[-1]` of a map
+   without labels, scipy's correlate on an empty vector); Seeding.seeds_model, the function the run model is instantiated with, answers "no seed"
+   where seeds_res raises.  C07_seeding_total: with 1 <= -r1, 0 <= -b1, 1 <= -r2, 0 <= -b2, -r1 <= -md, references that each have a label at a
+   position >= 0 and a query / fragment that has one, seeds_res returns normally.
+   C07_program_seeding_exact: for the program on input files (cmdline_ok, seeding_ok, cmap_ok; ref_positions_ok: every labelled reference molecule has a
+   label at a position >= 0): the maps the run seeds are, by the definition of _MultiPassWorkflowCoordinator.execute, the trimmed queries (first pass)
+   and the fragments getUnalignedFragments returns for the first-pass rows (second pass; RunProofs5: every one of them has a label); on EVERY one of them
+   seeds_model is exactly what the seeding stage returns.  The escape is never taken: program_files is the program with seeding exceptions propagated.
+   (C07_program_seeding_any_map: the same for any query or any fragment with a label, whether the run produces it or not.) *)
+Require Import SeedingProofs4 ProgramProofs4.
+Theorem C07_seeding_total sp refs q : 1 <= res1 sp -> 0 <= blur1 sp -> 1 <= res2 sp -> 0 <= blur2 sp -> res1 sp <= min_dist sp ->
+  (forall r, In r refs -> exists p, In p (mpositions r) /\ 0 <= p) -> (exists p, In p (mpositions q) /\ 0 <= p) ->
+  exists sds, seeds_res sp refs q = Ok sds /\ seeds_model sp refs q = sds.
+Proof. intros H1 H2 H3 H4 H5 Hr Hq. exists (seeds_model sp refs q). split; [exact (seeds_model_exact sp H1 H2 H3 H4 H5 refs q Hr Hq) | reflexivity]. Qed.
+
+Theorem C07_program_seeding_exact cl rr qr : cmdline_ok cl -> seeding_ok cl -> cmap_ok (cl_rids cl) rr -> cmap_ok (cl_qids cl) qr -> ref_positions_ok (cl_rids cl) rr ->
+  let P := make_params (cl_args cl) in let seeds : seeding := seeds_model (cl_seed cl) in
+  exists refs q0s rows1 it1 frags, cmap_read rr (cl_rids cl) = Ok refs /\ cmap_read qr (cl_qids cl) = Ok q0s /\
+    execute P seeds refs (map trim q0s) 1 = Ok (rows1, it1) /\ all_fragments rows1 (map trim q0s) = Ok frags /\
+    forall q', In q' (map trim q0s ++ frags) -> seeds_res (cl_seed cl) refs q' = Ok (seeds_model (cl_seed cl) refs q').
+Proof. exact (program_seeding_full cl rr qr). Qed.
+Theorem C07_program_seeding_any_map cl rr qr : seeding_ok cl -> cmap_ok (cl_rids cl) rr -> cmap_ok (cl_qids cl) qr -> ref_positions_ok (cl_rids cl) rr ->
+  exists refs q0s, cmap_read rr (cl_rids cl) = Ok refs /\ cmap_read qr (cl_qids cl) = Ok q0s /\
+    forall q', src_map (map trim q0s) q' -> mpositions q' <> [] ->
+      seeds_res (cl_seed cl) refs q' = Ok (seeds_model (cl_seed cl) refs q').
+Proof. exact (program_seeding_exact cl rr qr). Qed.
+
+Example C07_program_seeding_nonvacuous :
+  seeding_ok default_cmdline /\ (forall m, seeding_ok (ProgramExamples.px_cl m)) /\ ref_positions_ok [] ProgramExamples.px_rr /\
+  match seeds_res default_sparams [ProgramExamples.px_ref] (trim ProgramExamples.px_q3) return Prop with
+  | Ok l => map (fun s => (mid (sd_ref s), sd_rev s, sd_peaks s)) l = [(1, true, [1450480]); (1, false, []); (1, false, [])] | Err => False end.
+Proof. split; [repeat split; discriminate|]. split; [intros m; repeat split; discriminate|]. split; [apply ref_positions_ok_b; vm_compute; reflexivity|].
+  exact ProgramExamples.px_seeds. Qed.
+Print Assumptions C07_program_reader_rejects.
+Print Assumptions C07_program_total_partial.
+Print Assumptions C07_program_total_separate.
+Print Assumptions C07_seeding_total.
+Print Assumptions C07_program_seeding_exact.
+Print Assumptions C07_program_seeding_any_map.
